@@ -91,6 +91,7 @@ static Plan gen_lattice(Rng& r, int tier, std::string const&)
     if (p.acc) gen_dists(r, p, 1 + static_cast<int>(r.below(2)), false);
     p.fk = F_POLY;
     p.genmode = 1;
+    p.mapd = 0;
     p.cbk = 1;
     p.askw = static_cast<int>(r.below(3));
     p.jexp = static_cast<int>(r.below(41)) - 20;
@@ -716,6 +717,7 @@ static Plan gen_select(Rng& r, int tier, std::string const&)
     p.wts = 1;
     p.minw = 0;
     p.dims = 1 + r.below(2);
+    p.mapd = 0;
     p.calls.assign(1, tier ? 400 : 120);
     p.fk = F_POLY;
     p.variant = r.below(3);
